@@ -132,6 +132,9 @@ func DecodeStack(ename string) string {
 	lines := strings.Split(ename, "\n")
 	var lastPath string // empty or ends with .
 	for i, line := range lines {
+		if i == 0 {
+			continue // the counter's name: not a frame, never abbreviated
+		}
 		path, rest := cutLastDot(line)
 		if len(path) == 0 {
 			continue // unchanged
